@@ -55,4 +55,38 @@ ValLess(x, y) == IF x.neg /\ ~y.neg THEN TRUE ELSE IF ~x.neg /\ y.neg THEN FALSE
                  ELSE IF x.neg THEN MagLess(y, x) ELSE MagLess(x, y)
 NumLess(a, b) == ValLess(Value(a), Value(b))
 NumEq(a, b) == Value(a) = Value(b)
+\* ---- xsd:dateTime ----
+\* dateTimes of the form YYYY-MM-DDThh:mm:ss followed by nothing (no timezone), Z or +hh:mm / -hh:mm, years 1940..2060 (seconds since
+\* 2000-01-01 fit TLC's integers), real calendar days, hh < 24, mm < 60, ss < 60; fractions, 24:00:00 and other years are not modelled
+\* (no constraint on them).  Order relation of XML Schema part 2, 3.2.7.4: two timezoned values compare by instant, two values
+\* without timezone by their local time, and a timezoned P with a timezone-less Q are ordered only when more than 14 hours apart:
+\* P < Q iff P < Q+14:00, Q < P iff Q-14:00 < P.  (XPath's op:dateTime-less-than gives Q an implicit timezone within +-14:00:
+\* whatever it is, it agrees with this order where this order is determinate.)
+N2(s, i) == (s[i] - 48) * 10 + (s[i + 1] - 48)
+N4(s, i) == N2(s, i) * 100 + N2(s, i + 2)
+Leap(y) == (y % 4 = 0 /\ y % 100 # 0) \/ y % 400 = 0
+DaysIn(y, m) == IF m = 2 THEN (IF Leap(y) THEN 29 ELSE 28) ELSE IF m \in {4, 6, 9, 11} THEN 30 ELSE 31
+DtShape(x) == /\ Len(x) \in {19, 20, 25}
+              /\ \A i \in {1,2,3,4,6,7,9,10,12,13,15,16,18,19} : Digit(x[i])
+              /\ x[5] = 45 /\ x[8] = 45 /\ x[11] = 84 /\ x[14] = 58 /\ x[17] = 58
+              /\ (Len(x) = 20 => x[20] = 90)
+              /\ (Len(x) = 25 => x[20] \in {43, 45} /\ Digit(x[21]) /\ Digit(x[22]) /\ x[23] = 58 /\ Digit(x[24]) /\ Digit(x[25]))
+IsDateTimeLex(x) == DtShape(x) /\
+   (                 /\ N4(x, 1) >= 1940 /\ N4(x, 1) <= 2060 /\ N2(x, 6) >= 1 /\ N2(x, 6) <= 12
+                     /\ N2(x, 9) >= 1 /\ N2(x, 9) <= DaysIn(N4(x, 1), N2(x, 6))
+                     /\ N2(x, 12) <= 23 /\ N2(x, 15) <= 59 /\ N2(x, 18) <= 59
+                     /\ (Len(x) = 25 => N2(x, 21) <= 14 /\ N2(x, 24) <= 59 /\ (N2(x, 21) = 14 => N2(x, 24) = 0)))
+DtHasTz(x) == Len(x) > 19
+\* days since 2000-03-01 of the civil date (y, m, d), by the usual era-free formula for years after 1600
+DayNo(y, m, d) == LET yy == IF m <= 2 THEN y - 1 ELSE y   mm == IF m <= 2 THEN m + 9 ELSE m - 3
+                  IN yy * 365 + yy \div 4 - yy \div 100 + yy \div 400 + (153 * mm + 2) \div 5 + d - 730486
+\* seconds from 2000-03-01T00:00:00 of the instant (timezoned) or of the local time (no timezone)
+DtSecs(x) == LET off == IF Len(x) = 25 THEN (IF x[20] = 45 THEN -1 ELSE 1) * (N2(x, 21) * 3600 + N2(x, 24) * 60) ELSE 0
+           IN DayNo(N4(x, 1), N2(x, 6), N2(x, 9)) * 86400 + N2(x, 12) * 3600 + N2(x, 15) * 60 + N2(x, 18) - off
+DtLess(a, b) == IF DtHasTz(a) = DtHasTz(b) THEN DtSecs(a) < DtSecs(b)
+                ELSE IF DtHasTz(a) THEN DtSecs(a) < DtSecs(b) - 50400        \* P < Q + 14:00
+                ELSE DtSecs(a) + 50400 < DtSecs(b)                           \* Q - 14:00 < P
+\* the two values are ordered or equal (not so: one has a timezone, the other not, and they are within 14 hours of each other)
+DtComparable(a, b) == DtHasTz(a) = DtHasTz(b) \/ DtLess(a, b) \/ DtLess(b, a)
+DtEqual(a, b) == DtHasTz(a) = DtHasTz(b) /\ DtSecs(a) = DtSecs(b)
 ====
